@@ -25,7 +25,7 @@ var ev = kit.Ev("C03")
 
 func init() {
 	ev.Rule("case = role of the endpoint under test (client/server) x its policy (4x4 authentication/encryption levels, integrity = OPTIONAL or REQUIRED) x its ordered method list " +
-		"(subsets of CLAIMTOBE, FS, PASSWORD) x fresh or resumed (cached session with/without key, authenticated or not) x a scripted peer from the deviation catalogue " +
+		"(subsets of CLAIMTOBE, FS, PASSWORD) x {policy on the authenticator, policy per command (server)} x fresh or resumed (cached session with/without key, authenticated or not) x a scripted peer from the deviation catalogue " +
 		"(honest; answers Authentication/Encryption NO; omits/truncates/randomises/garbles its ECDH key; no common cipher; selects an unoffered method bit, several bits, zero, an unknown bit; " +
 		"offers unlisted bits; post-auth DENIED; post-auth ad in clear; arbitrary User/Sid; resumption replies); the whole product is enumerated. " +
 		"oracle (ground truth = what the scripted peer saw + the wire tap + the reference codec): success with own authentication REQUIRED => a listed method really completed (or the resumed session was authenticated); " +
@@ -41,6 +41,10 @@ type Case struct {
 	Methods   []string `json:"methods"`
 	Peer      string   `json:"peer"`
 	Resumed   string   `json:"resumed,omitempty"` // "", "key+auth", "key+noauth", "nokey+auth", "nokey+noauth"
+	// PerCmd (server role): the policy above is the per-command policy handed out by
+	// ServerConfigForCommand for the command the client names; the authenticator's base policy is
+	// OPTIONAL/OPTIONAL. "REQUIRED means required" for the policy that applies to the command.
+	PerCmd bool `json:"per_command,omitempty"`
 }
 
 var levels = []security.SecurityLevel{security.SecurityRequired, security.SecurityPreferred, security.SecurityOptional, security.SecurityNever}
@@ -246,6 +250,18 @@ func run(c Case) observed {
 		}()
 		ob.st = stream.NewStream(sc)
 		a := security.NewAuthenticator(cfg, ob.st)
+		if c.PerCmd {
+			weak := *cfg
+			weak.Authentication, weak.Encryption, weak.Integrity = security.SecurityOptional, security.SecurityOptional, security.SecurityOptional
+			a = security.NewAuthenticator(&weak, ob.st)
+			a.ServerConfigForCommand = func(command int) *security.SecurityConfig {
+				if command != 60011 {
+					return nil
+				}
+				strong := *cfg
+				return &strong
+			}
+		}
 		ob.neg, ob.err = a.ServerHandshake(ctx)
 	}
 	if ob.err != nil {
@@ -396,6 +412,16 @@ func allCases() []Case {
 					for _, res := range []string{"key+auth", "key+noauth", "nokey+auth", "nokey+noauth"} {
 						for _, p := range resumePeers {
 							out = append(out, Case{Role: role, Auth: auth, Enc: enc, Integrity: integ, Methods: []string{"CLAIMTOBE"}, Peer: p, Resumed: res})
+							if role == "server" {
+								out = append(out, Case{Role: role, Auth: auth, Enc: enc, Integrity: integ, Methods: []string{"CLAIMTOBE"}, Peer: p, Resumed: res, PerCmd: true})
+							}
+						}
+					}
+					if role == "server" { // fresh handshakes under a per-command policy
+						for _, ml := range methodLists[:3] {
+							for _, p := range peers {
+								out = append(out, Case{Role: role, Auth: auth, Enc: enc, Integrity: integ, Methods: ml, Peer: p, PerCmd: true})
+							}
 						}
 					}
 				}
@@ -441,7 +467,7 @@ func TestC03Catalogue(t *testing.T) {
 			}
 			if v != "" {
 				mu.Lock()
-				sig := c.Role + "/" + c.Peer + "/" + c.Resumed
+				sig := fmt.Sprintf("%s/%s/%s/%v", c.Role, c.Peer, c.Resumed, c.PerCmd)
 				if bad[sig] < 1 {
 					kit.Violation("C03", v, c)
 					t.Errorf("C03 violated: %s\n  case %+v\n  peer steps: %v", v, c, ob.plog.Steps)
@@ -452,7 +478,7 @@ func TestC03Catalogue(t *testing.T) {
 		}(c)
 	}
 	wg.Wait()
-	ev.Exhaustive(fmt.Sprintf("the whole catalogue product: %d cases (2 roles x 16 policies (+4 integrity-REQUIRED) x 5 method lists x %d/%d peer kinds, plus 4 cached-session kinds x %d resumption peers)",
+	ev.Exhaustive(fmt.Sprintf("the whole catalogue product: %d cases (2 roles x 16 policies (+4 integrity-REQUIRED) x 5 method lists x %d/%d peer kinds, plus 4 cached-session kinds x %d resumption peers; the server role additionally with its policy handed out per command through ServerConfigForCommand over an OPTIONAL base policy)",
 		len(cases), len(serverPeers), len(clientPeers), len(resumePeers)))
 }
 
